@@ -851,12 +851,11 @@ class vDuration(TimeBase):
                 minutes=int(minutes or 0),
                 seconds=int(seconds or 0)
             )
+            if sign == '-':
+                value = -value
         except OverflowError as e:
             # more days than a timedelta can hold
             raise ValueError(f'Invalid iCalendar duration: {ical}') from e
-
-        if sign == '-':
-            value = -value
 
         return value
 
